@@ -522,7 +522,7 @@ func ruleExportParts(c *Ctx, r *Rep) {
 	for _, part := range names {
 		found := false
 		for f := range reach {
-			if !strings.Contains(f.Pkg.Pkg.Path(), "filesystem") {
+			if !strings.Contains(fnPkgPath(f), "filesystem") {
 				continue
 			}
 			for _, ci := range callsIn(f) {
@@ -548,7 +548,7 @@ func ruleExportParts(c *Ctx, r *Rep) {
 	for _, part := range names {
 		n := 0
 		for f := range reach {
-			if !strings.Contains(f.Pkg.Pkg.Path(), "filesystem") {
+			if !strings.Contains(fnPkgPath(f), "filesystem") {
 				continue
 			}
 			for _, ci := range callsIn(f) {
